@@ -60,7 +60,56 @@ def in_two_threads(prog, a, b):
 
 BLOCKING = {"lock", "rd", "wr", "join", "cvwait", "recv", "nwait", "trylock", "tryrd", "trywr"}
 
+RMW = {"swap", "cas", "cswp", "fadd", "fsub", "fand", "fnand", "for", "fxor", "fmax", "fmin", "fupd"}
+
+
+def rmw_vs_write(prog):
+    """an RMW on a location that another thread writes (plain store or RMW)"""
+    ths = threads_of(prog)
+    for t, ops in enumerate(ths):
+        for o in ops:
+            if o[0] in RMW:
+                for u, ops2 in enumerate(ths):
+                    if u != t and any(p[0] in ATOMIC_WRITE and p[1] == o[1] for p in ops2):
+                        return True
+    return False
+
+
+def multi_writer_location(prog):
+    """a location with at least two writes, written by at least two threads, that somebody loads"""
+    ths = threads_of(prog)
+    w, n = {}, {}
+    for t, ops in enumerate(ths):
+        for o in ops:
+            if o[0] in ATOMIC_WRITE:
+                w.setdefault(o[1], set()).add(t)
+                n[o[1]] = n.get(o[1], 0) + 1
+    return any(len(ts) >= 2 and n[x] >= 2 for x, ts in w.items())
+
+
+def has_fence(prog, kinds):
+    return any(o[0] == "fence" and o[1] in kinds for ops in threads_of(prog) for o in ops)
+
+
+def sc_load_and_stores(prog):
+    ths = threads_of(prog)
+    for x in {o[1] for ops in ths for o in ops if o[0] in ATOMIC_READ}:
+        sc_ld = any(o[0] == "ld" and o[1] == x and o[-1] == "sc" for ops in ths for o in ops)
+        sc_st = sum(1 for ops in ths for o in ops if o[0] in ATOMIC_WRITE and o[1] == x and "sc" in o[3:])
+        if sc_ld and sc_st >= 2:
+            return True
+    return False
+
+
 SIGNATURES = {
+    # F4: a store is left unordered with an RMW although it is ordered after the store the RMW read
+    "rmw-atomicity": lambda p, kind, o: kind == "forbidden" and rmw_vs_write(p),
+    # F3: pointwise clock order is not the modification order (a read raises an old store's clock)
+    "coherence-clock-order": lambda p, kind, o: kind == "forbidden" and multi_writer_location(p),
+    # F2: fence(Acquire) acquires from every store seen by a thread that happens-before the fencing thread
+    "fence-acquire-over-sync": lambda p, kind, o: kind in ("missing", "missed_failure") and has_fence(p, {"acq", "ar", "sc"}),
+    # F16: a SeqCst load is not offered a SeqCst store when a clock-newer SeqCst store exists
+    "seqcst-load-pruning": lambda p, kind, o: kind == "missing" and sc_load_and_stores(p),
     # F1: a thread's own access overwrites the single last-access slot of an atomic
     "dpor-atomic-single-slot": lambda p, kind, o: kind in ("missing", "missed_failure") and shared_atomic_rw(p),
     # F7: emptiness test of try_recv / Receiver::drop is not a branch point
@@ -78,6 +127,8 @@ SIGNATURES = {
     # F15: a stale park token makes Condvar::wait return while the thread stays queued
     "condvar-stale-token": lambda p, kind, o: has(p, "cvwait") and has(p, "unpark"),
     # strong_count acquires (std uses a relaxed load): a race hidden behind acount
+    # F12: a leaked raw allocation aborts the process instead of reporting "Allocation leaked"
+    "raw-alloc-leak-abort": lambda p, kind, o: kind == "abort" and has(p, "alloc"),
     "arc-count-acquires": lambda p, kind, o: kind == "missed_failure" and has(p, "acount"),
 }
 
